@@ -3,6 +3,7 @@ package watchers
 import (
 	"context"
 	"fmt"
+	"math"
 	"sync"
 	"syscall"
 	"time"
@@ -35,7 +36,8 @@ func checkThreshold(total, free uint64, minSpaceRequired float64) error {
 	}
 
 	// Compare free space with threshold
-	if free < uint64(threshold) {
+	// (a threshold of 2^64 bytes or more cannot be held by a uint64, the conversion would wrap: it can never be met)
+	if threshold >= math.MaxUint64 || free < uint64(threshold) {
 		return fmt.Errorf("low disk space: free=%.2f GB, threshold=%.2f GB", float64(free)/1e9, float64(threshold)/1e9)
 	}
 
